@@ -16,7 +16,9 @@ import (
 
 func init() { extra = append(extra, factsC11) }
 
-func c11ws(s string) string { return strings.TrimSpace(regexp.MustCompile(`\s+`).ReplaceAllString(s, " ")) }
+func c11ws(s string) string {
+	return strings.TrimSpace(regexp.MustCompile(`\s+`).ReplaceAllString(s, " "))
+}
 func c11str(s string) string { return `"` + strings.ReplaceAll(s, `"`, `""`) + `"` }
 func c11bool(b bool) string {
 	if b {
